@@ -157,9 +157,6 @@ Proof.
   destruct H as [_ H]. cbn [map concat_strings]. symmetry. exact H.
 Qed.
 
-Fixpoint string_In (c : ascii) (s : string) : Prop :=
-  match s with EmptyString => False | String x r => x = c \/ string_In c r end.
-
 Lemma camel_scan_no_underscore : forall s b, ~ string_In underscore (camel_scan b s).
 Proof.
   induction s as [|c r IH]; intros b; cbn; [tauto|].
@@ -170,12 +167,6 @@ Qed.
 
 Lemma snake_to_camel_no_underscore_lem : forall s, ~ string_In underscore (snake_to_camel s).
 Proof. intros s. rewrite snake_to_camel_scan_lem. apply camel_scan_no_underscore. Qed.
-
-Fixpoint count_char (c : ascii) (s : string) : nat :=
-  match s with
-  | EmptyString => O
-  | String x r => ((if Ascii.eqb x c then 1 else 0) + count_char c r)%nat
-  end.
 
 Lemma camel_scan_length : forall s b,
   (String.length (camel_scan b s) + count_char underscore s = String.length s)%nat.
@@ -189,30 +180,6 @@ Qed.
 Lemma snake_to_camel_length_lem : forall s,
   (String.length (snake_to_camel s) + count_char underscore s = String.length s)%nat.
 Proof. intros s. rewrite snake_to_camel_scan_lem. apply camel_scan_length. Qed.
-
-(* Names on which snake_to_camel is injective: SHOUTY names in which every
-   underscore is directly followed by a letter.  [good false r]: r continues a
-   word; [good true r]: r directly follows an underscore. *)
-Fixpoint good (at_start : bool) (s : string) : bool :=
-  match s with
-  | EmptyString => negb at_start
-  | String c r =>
-      if Ascii.eqb c underscore then negb at_start && good true r
-      else if at_start then is_upper c && good false r
-      else (is_upper c || is_digit c) && good false r
-  end.
-
-Definition letter_boundaries (s : string) : bool :=
-  match s with
-  | EmptyString => false
-  | String c r => is_upper c && good false r
-  end.
-
-Fixpoint unscan (t : string) : string :=
-  match t with
-  | EmptyString => EmptyString
-  | String c r => if is_upper c then String underscore (String c (unscan r)) else String (to_upper c) (unscan r)
-  end.
 
 Lemma unscan_camel_scan : forall r,
   (good false r = true -> unscan (camel_scan false r) = r) /\
